@@ -778,6 +778,129 @@ func lateAtDial08(r *Run, kind string, L, n, k int, hold time.Duration, idx int)
 	t.close()
 }
 
+// idleDuringDial08 runs one "a connection goes idle while another query is dialing" scenario (see Q in runC08):
+// j queries are in flight on their own connections (replies held), d further queries find nothing idle and dial
+// (handshakes held); the j replies arrive, so j connections that carried a query are idle while the d dials are
+// still going on; the server drops those j connections silently (seen on the next write), right after the reply,
+// while idle, or keeps them; then the handshakes finish. Each of the d queries has a connection that was opened
+// for it: if that one works the query must succeed, whatever the transport does with the idle ones.
+func idleDuringDial08(r *Run, check func(string, res08, string, int, map[string]any, int, bool, bool), kind string, j, d int, fate string, idx int) {
+	mkind := kind
+	if kind == "pipeline-udp" {
+		mkind = "pipeline"
+	}
+	kills := []string{"eof-after-write", "reset-on-write"}
+	s := newSrv08()
+	t := mk08(kind, s, 1)
+	s.setDefault("hold")
+	var wg sync.WaitGroup
+	setup := true
+	for i := 0; i < j; i++ {
+		wg.Add(1)
+		go func() {
+			defer wg.Done()
+			ctx, cancel := context.WithTimeout(context.Background(), 3*time.Second)
+			defer cancel()
+			t.query(ctx)
+		}()
+		setup = s.waitWrites(i+1, 2*time.Second) && setup
+	}
+	// what the server does on the NEXT write to those j connections (the held replies are not affected)
+	var fates []string
+	s.mu.Lock()
+	for _, c := range s.conns {
+		m := fate
+		if fate == "random" {
+			m = []string{"answer", "eof-after-write", "reset-on-write", "eof-after-write", "answer-then-eof"}[r.Rng.Intn(5)]
+		} else if fate == "idle-eof" {
+			m = "answer"
+		}
+		s.mode[c.id] = m
+		fates = append(fates, m)
+	}
+	s.mu.Unlock()
+	// the connections opened for the d dialing queries: all of them work, or (sometimes) all of them fail
+	ownMode := "answer"
+	if fate == "random" && r.Rng.Intn(4) == 0 {
+		ownMode = kills[r.Rng.Intn(2)]
+	}
+	s.mu.Lock()
+	s.gateMode = []string{ownMode}
+	s.mu.Unlock()
+	s.holdDials()
+	dRes := make([]res08, d)
+	var dwg sync.WaitGroup
+	for i := 0; i < d; i++ {
+		dwg.Add(1)
+		go func(i int) {
+			defer dwg.Done()
+			ctx, cancel := context.WithTimeout(context.Background(), 4*time.Second)
+			defer cancel()
+			dRes[i] = t.query(ctx)
+		}(i)
+		setup = s.waitHeldDials(i+1, 2*time.Second) && setup
+	}
+	// the j queries are answered: their connections are idle now, during the dials
+	s.release()
+	wg.Wait()
+	noticed := true
+	if fate == "idle-eof" {
+		noticed = s.killIdle()
+	}
+	s.setDefault(ownMode)
+	time.Sleep(time.Duration(r.Rng.Intn(3)) * time.Millisecond)
+	s.letDialsFinish()
+	dwg.Wait()
+	if !setup {
+		r.Note(fmt.Sprintf("C08 Q/%s/%d/%d/%s: the scenario could not be set up within its time limits", kind, j, d, fate))
+	}
+	for i, res := range dRes {
+		line, n := classify08(kind, s, res, 0, 0)
+		s.mu.Lock()
+		var turns []string
+		stale := 0
+		for _, id := range s.order[res.tag] {
+			ok := s.replied[fmt.Sprintf("%d/%d", id, res.tag)]
+			if s.born[id].Before(res.started) { // its dial was asked for before this query existed: it carried another query
+				turns = append(turns, "pooled"+b01(ok))
+				if !ok {
+					stale++
+				}
+			} else {
+				turns = append(turns, "fresh"+b01(ok))
+			}
+		}
+		s.mu.Unlock()
+		if errors.Is(res.err, errDial08) {
+			turns = append(turns, "dialFail")
+		}
+		if len(turns) == 0 {
+			turns = []string{"stuck"}
+		}
+		desc := map[string]any{"transport": kind, "scenario": "idle-during-dial: queries in flight on their own connections, further queries find nothing idle and dial (held handshakes), the first replies arrive and those connections go idle during the dials, the server drops or keeps them, the handshakes finish",
+			"connections_that_went_idle_during_the_dial": j, "server_does_to_them_on_the_next_write": strings.Join(fates, ","), "fate": fate, "dialing_queries": d, "this_dialing_query": i,
+			"connection_opened_for_it": ownMode, "transport_noticed_idle_close": noticed, "observed_environment": strings.Join(turns, ",")}
+		check(kind, res, line, n, desc, stale, ownMode == "answer", false)
+		r.Line(fmt.Sprintf("loop %s %s", mkind, strings.Join(turns, ",")), line)
+		if kind == "reuse" { // the dialing branch over the regenerated fact about getNewConn (Model.C08.DialHandOver)
+			idle := "1"
+			for _, f := range fates {
+				if f != "answer" {
+					idle = "0"
+				}
+			}
+			if fate == "idle-eof" && noticed {
+				idle = "none"
+			}
+			r.Line(fmt.Sprintf("dialed %s %s", idle, b01(ownMode == "answer")), line)
+		}
+		r.Eval(fmt.Sprintf("Q/%s/%d/%d/%s/%d/%d", kind, j, d, fate, idx, i), true)
+		r.Count(kind + ":idle-during-dial")
+		r.Trace()
+	}
+	t.close()
+}
+
 func rep08(turn string, n int) []string {
 	out := make([]string, n)
 	for i := range out {
@@ -1066,6 +1189,22 @@ func runC08(r *Run) {
 				}
 			}
 		}
+		// ---- Q: connections go idle WHILE other queries are dialing (pool empty when they looked, handshakes held);
+		// the server drops the idle ones silently / right after the reply / while idle, or keeps them; the handshakes
+		// finish: every dialing query has a connection that was opened for it, and succeeds if that one works
+		qkinds := []string{"reuse", "pipeline"}
+		if r.Thorough() {
+			qkinds = append(qkinds, "pipeline-udp")
+		}
+		for _, kind := range qkinds {
+			for qi, fate := range []string{"eof-after-write", "reset-on-write", "answer-then-eof", "idle-eof", "random", "random"} {
+				j, d := 1, 1
+				if rep > 0 || qi >= 4 {
+					j, d = 1+r.Rng.Intn(3), 1+r.Rng.Intn(3)
+				}
+				idleDuringDial08(r, check, kind, j, d, fate, rep*10+qi)
+			}
+		}
 		// ---- H: reuse: j concurrent queries over k silently dead idle connections
 		for k := 1; k <= 6; k++ {
 			j := 1 + r.Rng.Intn(4)
@@ -1210,5 +1349,5 @@ func runC08(r *Run) {
 			}
 		}
 	}
-	r.Finish("transports {ReuseConnTransport, PipelineTransport over TraditionalDnsConn} x server scripts {k = 0..6 pooled connections silently dead (write accepted then closed / reset on write) followed by a fresh connection that works / fails / cannot be dialed; closed while idle; closed right after a reply; transport closed; silent pooled connections + caller's context ends; closed with j queries in flight (with and without the opener among them, Close() of the connection fast or slow); dies between reservation and write; j concurrent queries over k dead idle connections; p = 1..3 callers cancelled while their connections are being dialed (held handshake), the dials finish afterwards and leave connections that never carried a query in the pool next to k0 that did, the server drops them on the next write / while idle / keeps them (fixed or random per connection), then a query (pipeline: also one that arrives during the dial); random sequential streams with bursts; no fault at all: n <= L queries queued behind a held dial of a pipeline connection (tcp framing and datagram) that takes L = 1..3 queries, the first of them opened it, the dial succeeds, one queued query is descheduled on its way into the dialed connection and 1..2 further queries arrive at that moment, replies held until every query was written or returned: every query must return its own reply (replayed on the loop model as fresh1 / pooled1 and on the hand-over model Model.C08.Handoff)}; per query: connections its bytes were written on, result class; the model runs on the enforced (or observed) environment")
+	r.Finish("transports {ReuseConnTransport, PipelineTransport over TraditionalDnsConn} x server scripts {k = 0..6 pooled connections silently dead (write accepted then closed / reset on write) followed by a fresh connection that works / fails / cannot be dialed; closed while idle; closed right after a reply; transport closed; silent pooled connections + caller's context ends; closed with j queries in flight (with and without the opener among them, Close() of the connection fast or slow); dies between reservation and write; j concurrent queries over k dead idle connections; p = 1..3 callers cancelled while their connections are being dialed (held handshake), the dials finish afterwards and leave connections that never carried a query in the pool next to k0 that did, the server drops them on the next write / while idle / keeps them (fixed or random per connection), then a query (pipeline: also one that arrives during the dial); j = 1..3 connections go idle (their replies arrive) while d = 1..3 other queries, which found nothing idle, are dialing (held handshakes), the server drops the idle ones on the next write / right after the reply / while idle or keeps them, the handshakes finish: each dialing query must succeed if the connection opened for it works (reuse: also replayed on Model.C08.DialHandOver over the regenerated fact about getNewConn); random sequential streams with bursts; no fault at all: n <= L queries queued behind a held dial of a pipeline connection (tcp framing and datagram) that takes L = 1..3 queries, the first of them opened it, the dial succeeds, one queued query is descheduled on its way into the dialed connection and 1..2 further queries arrive at that moment, replies held until every query was written or returned: every query must return its own reply (replayed on the loop model as fresh1 / pooled1 and on the hand-over model Model.C08.Handoff)}; per query: connections its bytes were written on, result class; the model runs on the enforced (or observed) environment")
 }
